@@ -520,6 +520,9 @@ class Exec(Interp):
         self.assume(st, n >= 0)
         self.assume(st, qforall([i], z3.Implies(z3.And(0 <= i, i < n), z3.And(has[seq[i]], pos[seq[i]] == i)), patterns=[seq[i]]))
         self.assume(st, qforall([kk], z3.Implies(has[kk], z3.And(0 <= pos[kk], pos[kk] < n, seq[pos[kk]] == kk)), patterns=[pos[kk], has[kk]]))
+        if d.kind.k is KInt:
+            from . import lib
+            self.assume(st, lib.all_distinct(seq, n))
         cache[key] = l
         st.ghost.setdefault("keypos", {})[l.term.get_id()] = pos
         return l
